@@ -97,7 +97,9 @@ CLAIMED = {
             "Coq proof over the parser model + differential correspondence of both legs"),
     "C18": ("Coq model of the whole loop: recorder formatting (shlex.quote included) -> shlex posix tokeniser -> build_command_list "
             "-> _decodeKey; theorems (Properties/C18.v): every name the recorder can write for a keysym decodes back to that keysym "
-            "(reverse map checked over the whole regenerated table, raw characters by a no-single-character-name lemma), ...; the "
+            "(reverse map checked over the whole regenerated table, raw characters by a no-single-character-name lemma), shlex reads back "
+            "shlex.quote(s) for every text, float() accepts every %.4f, a session is tokenised into exactly its commands, and the full "
+            "record -> shlex -> compile -> decode loop returns the original events for every session; the "
             "real vnclog recorder writes a text-mode script file for EVERY representable keysym (quick: 0..0xFFFF, thorough: "
             "0..0x10FFFF) and random key/pointer sessions, the real build_command_list compiles the file and a real VNCDoCLIClient "
             "replays it under a virtual clock with several warp factors; key events, pointer positions (up to stuttering), button "
